@@ -14,7 +14,9 @@ import (
 	"fmt"
 	"os"
 	"sort"
+	"strings"
 	"sync"
+	"time"
 
 	"pgregory.net/rapid"
 )
@@ -173,11 +175,35 @@ func Prop[C any](name string, gen func(*rapid.T) C, check func(C) *Failure, clas
 			}
 			return c
 		})
-		if f := check(c); f != nil {
+		f := check(c)
+		// a harness-side resource shortage (no free port, too many open files) says nothing about
+		// the property: wait and retry the same case, and if it persists count the case as skipped
+		for try := 0; f != nil && transient(f) && try < 5; try++ {
+			Count(name, "harness-retry", 1)
+			time.Sleep(time.Duration(300*(try+1)) * time.Millisecond)
+			f = check(c)
+		}
+		if f != nil && transient(f) {
+			Count(name, "inconclusive:harness-resource", 1)
+			return
+		}
+		if f != nil {
 			RecordFailure(name, f, c)
 			t.Fatalf("[%s] %s: %s", name, f.Sig, f.Msg)
 		}
 	}
+}
+
+func transient(f *Failure) bool {
+	if !strings.HasPrefix(f.Sig, "harness:") {
+		return false
+	}
+	for _, m := range []string{"address already in use", "too many open files", "cannot assign requested address", "resource temporarily unavailable"} {
+		if strings.Contains(f.Msg, m) {
+			return true
+		}
+	}
+	return false
 }
 
 // pending writes the case about to be executed to $VERIF_OUT.pending, so that
